@@ -555,6 +555,8 @@ def owners(clause: str, kind: str) -> set:
             own |= {'C11'}
         if c.startswith('stream-'):
             own |= {'C10', 'C13'} if kind == 'abort' else {'C10'}
+            if c.startswith('stream-no-relay'):
+                own |= {'C05'}
         if c.startswith('log-'):
             own |= {'C13'} if kind == 'abort' else {'C08'}
             if c.startswith('log-present') or c.startswith('log-json'):
@@ -590,9 +592,14 @@ def run_into(chk: Check, pid: str, tier: str) -> None:
         'client end of the connection',
         'TLC, SANY, Json community module']
     from . import tablemodel
-    if pid != 'C06':
+    if pid not in ('C05', 'C06'):
         tablemodel.design(chk, pid, tier)
-    if pid == 'C06':
+    if pid == 'C05':
+        # "a refused play changes nothing", at the table: the refused card is
+        # not passed on to the other seats (whose replicas would take it)
+        jobs = [j for j in abort_jobs(r, 60 if quick else 1500, 'a')
+                if j[1].get('fault', {}).get('phase') == 'play'][:16 if quick else 400]
+    elif pid == 'C06':
         # the set the bundled client's replica offers to its playing system, at
         # every decision of sessions with passed-out boards in every position
         jobs = normal_jobs(r, 30 if quick else 1500, 'o', max_boards=4)
